@@ -31,6 +31,7 @@
 
 #include <tbox/event/loop.h>
 #include <tbox/event/fd_event.h>
+#include <tbox/event/timer_event.h>
 
 #include <poll.h>
 #include <signal.h>
@@ -41,6 +42,8 @@
 #include <errno.h>
 
 #include <algorithm>
+#include <atomic>
+#include <chrono>
 #include <exception>
 #include <functional>
 #include <map>
@@ -56,6 +59,67 @@ using tbox::event::FdEvent;
 using tbox::event::Event;
 
 namespace {
+
+// ---- a signal that interrupts the back-end's wait: no-op handler without SA_RESTART, sent to the loop thread by a
+// helper thread until the pass has returned (or a callback has run, which also means the wait is over)
+volatile sig_atomic_t g_sig_seen = 0;
+void on_sigusr2(int) { g_sig_seen = g_sig_seen + 1; }
+
+struct Kicker {
+    pthread_t target, th;
+    pthread_mutex_t mu;
+    pthread_cond_t cv;
+    bool active, started;
+    std::atomic<bool> stop;
+    Kicker() : active(false), started(false), stop(true) {
+        target = pthread_self();
+        pthread_mutex_init(&mu, nullptr);
+        pthread_cond_init(&cv, nullptr);
+    }
+    static void *run(void *p) {
+        Kicker *k = static_cast<Kicker *>(p);
+        sigset_t ss; sigemptyset(&ss); sigaddset(&ss, SIGUSR2);
+        pthread_sigmask(SIG_BLOCK, &ss, nullptr);
+        pthread_mutex_lock(&k->mu);
+        for (;;) {
+            while (!k->active) pthread_cond_wait(&k->cv, &k->mu);
+            pthread_mutex_unlock(&k->mu);
+            while (!k->stop.load()) {
+                usleep(60);
+                if (k->stop.load()) break;
+                pthread_kill(k->target, SIGUSR2);
+            }
+            pthread_mutex_lock(&k->mu);
+            k->active = false;
+            pthread_cond_broadcast(&k->cv);
+        }
+        return nullptr;
+    }
+    //! one helper thread per process, parked on the condition variable between interrupted passes
+    void start() {
+        if (!started) {
+            pthread_attr_t at; pthread_attr_init(&at); pthread_attr_setdetachstate(&at, PTHREAD_CREATE_DETACHED);
+            started = pthread_create(&th, &at, run, this) == 0;
+            pthread_attr_destroy(&at);
+            if (!started) return;
+        }
+        pthread_mutex_lock(&mu);
+        stop.store(false);
+        active = true;
+        pthread_cond_broadcast(&cv);
+        pthread_mutex_unlock(&mu);
+    }
+    //! returns when the helper is parked again: no signal is sent after this
+    void finish() {
+        stop.store(true);
+        if (!started) return;
+        pthread_mutex_lock(&mu);
+        while (active) pthread_cond_wait(&cv, &mu);
+        pthread_mutex_unlock(&mu);
+    }
+};
+Kicker g_kick;
+Kicker *g_kicker = nullptr;
 
 const short kR = FdEvent::kReadEvent, kW = FdEvent::kWriteEvent, kX = FdEvent::kExceptEvent;
 
@@ -107,6 +171,8 @@ struct Options {
     bool equiv = false;
     int cls = 3;             //!< safety scenario class, see top of file
     bool wide = false;       //!< many descriptors, registrations inside callbacks
+    bool eintr = false;      //!< one pass blocks in the back-end's wait with no enabled event due and is interrupted by a signal
+    bool ebadf = false;      //!< descriptors are closed with events left ENABLED on them (select's wait fails with EBADF)
 };
 
 typedef std::vector<std::pair<uint64_t, int> > PassLog;
@@ -129,6 +195,7 @@ struct World {
     int nrecords = 0;        //!< descriptors with at least one event (records in the loop's map, without its own wake-up fd)
     int max_records = 0;     //!< largest number of records the loop's map ever held (with the wake-up fd during a pass)
     int served_fds = 0;      //!< descriptors served so far in this pass
+    int next_park = 300;     //!< lowest number the far end of a re-opened channel may get
     std::vector<PassLog> cb_log;
     vh::Sig sig;
     bool saw_multi_ready = false, saw_cross_mutation = false;
@@ -406,13 +473,15 @@ struct World {
     bool reopen_number(int di, bool other_watchable) {
         Desc &d = descs[di];
         int r = d.fd;
-        if (d.open || fcntl(r, F_GETFD) != -1) { d.reuse_pending = false; vh::counter("reopen_skipped_number_in_use"); return false; }
+        if (d.open || next_park > 900 || fcntl(r, F_GETFD) != -1) { d.reuse_pending = false; vh::counter("reopen_skipped_number_in_use"); return false; }
         int f[2];
         if ((d.sock ? socketpair(AF_UNIX, SOCK_STREAM, 0, f) : pipe(f)) != 0) { fprintf(stderr, "VH-FATAL: reopen-failed errno=%d\n", errno); abort(); }
         // park both ends on high numbers first so that neither sits on a number that is waiting to be re-used
-        int park = r >= 300 ? r + 1 : 300;
+        // never hand out a parked number twice in one case: an event may have been left enabled on a closed one
+        int park = std::max(next_park, r + 1);
         int hi0 = fcntl(f[0], F_DUPFD_CLOEXEC, park), hi1 = fcntl(f[1], F_DUPFD_CLOEXEC, park);
         ::close(f[0]); ::close(f[1]);
+        next_park = std::max(hi0, hi1) + 1;
         if (hi0 < 0 || hi1 < 0) { fprintf(stderr, "VH-FATAL: dupfd-failed errno=%d\n", errno); abort(); }
         int mine = (d.sock || d.side == 0) ? hi0 : hi1, other = (mine == hi0) ? hi1 : hi0;
         if (dup2(mine, r) != r) { fprintf(stderr, "VH-FATAL: dup2-failed errno=%d\n", errno); abort(); }
@@ -463,6 +532,7 @@ struct World {
     // ---------------------------------------------------------------- the monitor
     void on_cb(uint64_t id, int events) {
         ++callbacks;
+        if (g_kicker) g_kicker->stop.store(true);
         vh::counter("cb_total");
         vh::counter("cb_" + be);
         Ev *ep = find(id);
@@ -486,7 +556,7 @@ struct World {
             VH_CHECK(!impl_en, k("oneshot/still-enabled-inside-callback"), "pass %d: one-shot %s reports isEnabled()==true inside its callback", pass, evname(e).c_str());
             vh::counter("cb_oneshot");
         } else {
-            VH_CHECK(impl_en, k("persistent/disabled-inside-callback"), "pass %d: persistent %s reports isEnabled()==false inside its callback", pass, evname(e).c_str());
+            VH_CHECK(impl_en || !d.open, k("persistent/disabled-inside-callback"), "pass %d: persistent %s reports isEnabled()==false inside its callback", pass, evname(e).c_str());
         }
         if (e.oneshot) e.enabled = false;
         if (!(events & e.mask)) {
@@ -536,7 +606,8 @@ struct World {
         if (script) script(*this, e, events);
         else if (opt.equiv) equiv_actions(e, r);
         else random_actions(e, r);
-        if (!script && r.chance(1, 8)) close_own_while_enabled(e);
+        if (!script && opt.ebadf && r.chance(1, 6)) sloppy_close_own(e);
+        else if (!script && r.chance(1, 8)) close_own_while_enabled(e);
         e.in_cb = false;
     }
 
@@ -904,7 +975,7 @@ struct World {
     }
 
     //! one loop pass; false if the case must be abandoned
-    bool run_pass() {
+    bool run_pass(bool interrupted = false) {
         ++pass;
         cb_log.resize(pass + 1);
         snapshot();
@@ -918,7 +989,32 @@ struct World {
         if (probe >= 0) ::close(probe);
         record_freed_this_pass = false;
         if (nrecords + 1 > max_records) max_records = nrecords + 1;    // the wake-up descriptor is registered at the start of the pass
-        loop->runNext([] {}, "c03-nowait");
+        // pass-start statistics for the two ways a wait can fail
+        int zombies = 0, idle_enabled = 0;
+        for (auto &kv : evs) {
+            Ev &e = *kv.second;
+            if (!e.enabled) continue;
+            if (!descs[e.desc].open) ++zombies;
+            else if (!(descs[e.desc].snap & e.mask)) ++idle_enabled;
+        }
+        if (zombies) {
+            vh::counter(be + "_pass_with_enabled_event_on_closed_fd");
+            if (idle_enabled) vh::counter("wait_failed_ebadf_with_nonready_enabled_events");   // select: EBADF; epoll: registration already gone
+        }
+        tbox::event::TimerEvent *guard = nullptr;
+        bool guard_fired = false;
+        int sig_before = g_sig_seen;
+        if (interrupted) {
+            // no deferred task: the wait blocks (bounded by a 5 s guard timer) until the signal arrives
+            guard = loop->newTimerEvent("c03-guard");
+            guard->initialize(std::chrono::milliseconds(5000), Event::Mode::kOneshot);
+            guard->setCallback([&guard_fired] { guard_fired = true; });
+            guard->enable();
+            g_kicker = &g_kick;
+            g_kick.start();
+        } else {
+            loop->runNext([] {}, "c03-nowait");
+        }
         in_pass = true;
         bool ok = true;
         try {
@@ -935,6 +1031,19 @@ struct World {
             ok = false;
         }
         in_pass = false;
+        if (g_kicker) g_kicker->finish();
+        g_kicker = nullptr;
+        if (guard) { guard->disable(); delete guard; }
+        if (interrupted && ok) {
+            vh::counter("interrupted_passes");
+            if (guard_fired) vh::counter("interrupted_pass_guard_timer_expired");
+            else if (g_sig_seen != sig_before) {
+                // returned although nothing was ready, no task was queued and the timer did not fire: the wait was interrupted
+                vh::counter(be + "_wait_failed_eintr");
+                if (idle_enabled) vh::counter(be + "_wait_failed_eintr_with_nonready_enabled_events");
+                vh::counter_max("max_enabled_nonready_events_at_interrupted_wait", idle_enabled);
+            }
+        }
         if (!ok) {
             // runThisAfterLoop() was skipped: the internal wake-up event and its descriptor are left behind
             bool mine = false;
@@ -949,9 +1058,49 @@ struct World {
             Ev &e = *kv.second;
             VH_CHECK(!e.pending_delete, k("harness/deferred-delete-not-run"), "pass %d: deferred delete of %s did not run in the pass", pass, evname(e).c_str());
             bool en = e.p->isEnabled();
+            if (e.enabled && !descs[e.desc].open) {
+                // left enabled on a closed descriptor: select disables such events by itself when its wait fails, epoll does not
+                if (!en) vh::counter(be + "_auto_disabled_event_left_enabled_on_closed_fd");
+                continue;
+            }
             VH_CHECK(en == e.enabled, k("state/isEnabled-differs-from-model"), "after pass %d: %s isEnabled()=%d, model %d", pass, evname(e).c_str(), (int)en, (int)e.enabled);
         }
         return true;
+    }
+
+    //! before an interrupted pass: no enabled event may be due, otherwise the wait would not block
+    void make_all_idle() {
+        for (auto &d : descs) if (d.open) drain_fd(d.fd);
+        snapshot();
+        std::vector<Ev *> due;
+        for (auto &kv : evs) { Ev &e = *kv.second; if (e.enabled && descs[e.desc].open && (descs[e.desc].snap & e.mask)) due.push_back(&e); }
+        for (Ev *e : due) do_disable(*e);
+        log(vh::fmt("idle: drained all, disabled %zu due events", due.size())); sig.add(0xa0);
+    }
+
+    //! close the running event's descriptor and leave every event of that number ENABLED (no disable at all)
+    bool sloppy_close_own(Ev &self) {
+        Desc &sd = descs[self.desc];
+        if (!opt.ebadf || opt.equiv || !sd.open || sd.reuse_pending) return false;
+        int left = 0;
+        for (auto &kv : evs) if (kv.second->desc == self.desc && kv.second->enabled) ++left;
+        if (!left) return false;
+        int pi = peer_of(self.desc);
+        log(vh::fmt(" close-own-leaving-%d-enabled", left)); sig.add(0xa1);
+        close_desc(self.desc);
+        if (descs[pi].open && descs[pi].nev == 0) close_desc(pi);
+        vh::counter("act_close_own_fd_leaving_events_enabled");
+        if (left >= 2) vh::counter("act_close_own_fd_leaving_two_or_more_events_enabled");
+        return true;
+    }
+    void sloppy_close_between_passes() {
+        std::vector<int> v;
+        for (auto &kv : evs) { Ev &e = *kv.second; if (e.enabled && descs[e.desc].open && !descs[e.desc].reuse_pending) v.push_back(e.desc); }
+        if (v.empty()) return;
+        int di = rs.pick(v);
+        log(vh::fmt("close d%d leaving its events enabled", di)); sig.add(0xa2);
+        close_desc(di);
+        vh::counter("close_between_passes_leaving_events_enabled");
     }
 
     void teardown() {
@@ -970,12 +1119,24 @@ struct World {
 
     void run_random() {
         start();
-        log(std::string("[") + be + (opt.equiv ? " equiv" : vh::fmt(" class%d", opt.cls)) + (opt.wide ? " wide" : "") + "]");
+        log(std::string("[") + be + (opt.equiv ? " equiv" : vh::fmt(" class%d", opt.cls)) + (opt.wide ? " wide" : "") + (opt.eintr ? " eintr" : "") + (opt.ebadf ? " ebadf" : "") + "]");
+        // ebadf scenarios: keep one descriptor number below all channels free for the whole case, so that the loop's own
+        // wake-up descriptor (lowest free number, re-created every pass) never lands on a number that was closed with
+        // events still enabled on it
+        int hole = opt.ebadf ? open("/dev/null", O_RDONLY | O_CLOEXEC) : -1;
         setup_random();
+        if (hole >= 0) ::close(hole);
         int npass = (int)rs.range(3, 7);
+        int ipass = opt.eintr ? (int)rs.range(1, npass - 1) : -1;
         for (int p = 0; p < npass; ++p) {
             if (p) between_passes();
+            if (opt.ebadf && p && rs.chance(1, 4)) sloppy_close_between_passes();
             shape_readiness();
+            if (p == ipass) {
+                make_all_idle();
+                if (!run_pass(true)) break;
+                continue;
+            }
             if (!run_pass()) break;
         }
         teardown();
@@ -993,6 +1154,8 @@ void safety_case(uint64_t idx, vh::Rng &) {
     const char *be = (idx & 1) ? "select" : "epoll";
     Options o; o.equiv = false; o.cls = (int)(scen % 4);
     if (scen % 5 == 0) { o.wide = true; o.cls = 2 + (int)((scen / 5) & 1); }
+    else if (scen % 5 == 1) o.eintr = true;
+    else if (scen % 5 == 2) { o.ebadf = true; o.cls = 3; }
     World w(be, vh::mix(vh::st().args.seed, scen), o);
     w.run_random();
     vh::counter(std::string("cases_") + be);
@@ -1008,6 +1171,7 @@ void compare_backends(World &a, World &b);
 void equiv_case(uint64_t idx, vh::Rng &) {
     Options o; o.equiv = true; o.cls = 3;
     o.wide = idx % 5 == 0;
+    o.eintr = idx % 5 == 1;
     uint64_t s = vh::mix(vh::st().args.seed ^ 0xe9, idx);
     World a("epoll", s, o);
     a.run_random();
@@ -1077,6 +1241,49 @@ void run_reuse_history(World &w, int variant) {
     w.teardown();
 }
 
+// ---- directed histories in which the back-end's wait fails. kind 0: nothing is ready, three enabled events, the wait is
+// interrupted by a signal (EINTR) -> no callback. kind 1: EA's callback closes the read end of pipe B while EB is still
+// enabled on it (select's next wait fails with EBADF; epoll's registration is simply gone) -> EB and EC (pipe C is empty
+// all along) must never be called; EA only while pipe A holds a byte.
+void wait_failure_directed_case(int kind, const char *be) {
+    Options o; o.equiv = false; o.cls = 3; o.ebadf = kind == 1; o.eintr = kind == 0;
+    World w(be, 3000 + kind, o);
+    w.start();
+    w.log(vh::fmt("[%s wait-failure %s]", be, kind ? "ebadf" : "eintr"));
+    int hole = kind == 1 ? open("/dev/null", O_RDONLY | O_CLOEXEC) : -1;
+    int a = w.add_pipe(), b = w.add_pipe(), c = w.add_pipe();
+    if (hole >= 0) ::close(hole);
+    int ra = w.chans[a].d[0], rb = w.chans[b].d[0], rc = w.chans[c].d[0];
+    w.create(1, ra, kR, false, true, 0);
+    w.create(2, rb, kR, false, true, 0);
+    w.create(3, rc, kR, kind == 0, true, 0);
+    if (kind == 0) {
+        int d = w.add_pipe();                                        // a write event on a full pipe: enabled, not writable
+        w.fill_fd(w.descs[w.chans[d].d[1]].fd);
+        w.create(4, w.chans[d].d[1], kW, false, true, 0);
+        w.script = [](World &, Ev &, int) { vh::counter("directed_wait_failure_callback"); };
+        w.run_pass();                                                // nothing ready, zero-timeout wait
+        if (!w.abandon) w.run_pass(true);                            // blocks, interrupted by SIGUSR2
+        if (!w.abandon) { w.set_level(w.dirs[0], 2); w.run_pass(); } // EA readable: exactly the ready one is served
+        vh::counter("directed_eintr_cases");
+    } else {
+        w.set_level(w.dirs[0], 2);
+        w.script = [rb](World &W, Ev &self, int) {
+            W.drain_fd(W.descs[self.desc].fd);
+            if (self.id == 1 && W.descs[rb].open) { W.log(vh::fmt(" close d%d leaving e2 enabled", rb)); W.close_desc(rb); vh::counter("directed_close_leaving_enabled"); }
+        };
+        w.run_pass();                                                // EA called, closes B's read end
+        if (!w.abandon) w.run_pass();                                // select: EBADF, events of B disabled by the loop; epoll: silence
+        if (!w.abandon) { w.set_level(w.dirs[2], 2); w.run_pass(); } // C readable now: EC may be called, EB never
+        if (!w.abandon && w.cb_log.size() > 2 && !w.cb_log[2].empty()) vh::counter("ebadf_other_ready_event_called_afterwards");
+        vh::counter("directed_ebadf_cases");
+    }
+    w.teardown();
+    vh::counter("directed_cases");
+    w.sig.add(0x7100 + kind * 2 + (be[0] == 's'));
+    vh::note_case(w.sig.h, true);
+}
+
 void reuse_directed_case(int variant) {
     Options o; o.equiv = true; o.cls = 3;
     World a("epoll", 2000 + variant, o);
@@ -1097,6 +1304,11 @@ void reuse_directed_case(int variant) {
 const int kDirected = 14;
 
 void directed_case(uint64_t idx, vh::Rng &) {
+    if (idx >= 2 * (uint64_t)kDirected + 3) {
+        uint64_t j = (idx - 2 * kDirected - 3) % 4;
+        wait_failure_directed_case((int)(j / 2), (j & 1) ? "select" : "epoll");
+        return;
+    }
     if (idx >= 2 * (uint64_t)kDirected) { reuse_directed_case((int)((idx - 2 * kDirected) % 3)); return; }
     int scen = (int)((idx / 2) % kDirected);
     const char *be = (idx & 1) ? "select" : "epoll";
@@ -1238,6 +1450,11 @@ void directed_case(uint64_t idx, vh::Rng &) {
 
 int main(int argc, char **argv) {
     signal(SIGPIPE, SIG_IGN);
+    struct sigaction sa;
+    memset(&sa, 0, sizeof sa);
+    sa.sa_handler = on_sigusr2;     // no SA_RESTART
+    sigemptyset(&sa.sa_mask);
+    sigaction(SIGUSR2, &sa, nullptr);
     vh::parse_args(argc, argv);
     const std::string mode = vh::st().args.mode;
     return vh::run(argc, argv, [&](uint64_t idx, vh::Rng &r) {
